@@ -34,6 +34,7 @@ type MixParams struct {
 	NoPipeInLRem   bool
 	NoEmptyMember  bool // K-C06-empty-member: SRem/SPop of the empty set member remove nothing
 	NoEmptyZKey    bool
+	NoSPop         bool // SPop's choice follows Go's map order and may differ between two worlds (C19)
 	NoZPop         bool // K4: positional sorted-set removals (ZPopMax/ZPopMin/ZRemRangeByRank) are excluded from programs with Merge
 	KVTTL          bool
 	ViewWrites     bool     // read-only transactions also call mutating APIs (must fail, no effect)
@@ -222,6 +223,9 @@ func (g *G) mixOp(ds string, write bool, p MixParams, kp KVParams) (op prog.Op, 
 		case 4, 5:
 			return prog.Op{K: "srem", B: b, Key: k, Vals: []string{member()}}, 2, buckets
 		case 6:
+			if p.NoSPop {
+				return prog.Op{K: "srem", B: b, Key: k, Vals: []string{member()}}, 2, buckets
+			}
 			return prog.Op{K: "spop", B: b, Key: k}, 1, buckets
 		case 7:
 			if p.NoSMove {
